@@ -469,6 +469,11 @@ func genUniqRuleNames(a, b []*nsxRule) {
 	for _, ru := range a {
 		aIds[ru.Id] = true
 	}
+	// New name must also be different from other names of b.
+	used := maps.Clone(aIds)
+	for _, ru := range b {
+		used[ru.Id] = true
+	}
 	for _, ru := range b {
 		id := ru.Id
 		if !aIds[id] {
@@ -476,7 +481,8 @@ func genUniqRuleNames(a, b []*nsxRule) {
 		}
 		for i := 1; ; i++ {
 			newId := fmt.Sprintf("%s-%d", id, i)
-			if !aIds[newId] {
+			if !used[newId] {
+				used[newId] = true
 				ru.Id = newId
 				break
 			}
@@ -486,6 +492,14 @@ func genUniqRuleNames(a, b []*nsxRule) {
 
 // Rename groups in b such that names are unique in respect to groups in a.
 func genUniqGroupNames(a map[string]*nsxGroup, b []*nsxGroup) {
+	// New name must also be different from other names of b.
+	used := make(map[string]bool)
+	for id := range a {
+		used[id] = true
+	}
+	for _, g := range b {
+		used[g.Id] = true
+	}
 	for _, g := range b {
 		id := g.Id
 		if a[id] == nil {
@@ -493,7 +507,8 @@ func genUniqGroupNames(a map[string]*nsxGroup, b []*nsxGroup) {
 		}
 		for i := 1; ; i++ {
 			newId := fmt.Sprintf("%s-%d", id, i)
-			if a[newId] == nil {
+			if !used[newId] {
+				used[newId] = true
 				g.Id = newId
 				break
 			}
